@@ -80,6 +80,8 @@ def mutable_default(fn_node):
                 mutated = True
             if isinstance(n, ast.AugAssign) and isinstance(n.target, ast.Name) and n.target.id == p.arg:
                 mutated = True
+            if isinstance(n, ast.Subscript) and isinstance(n.ctx, (ast.Store, ast.Del)) and isinstance(n.value, ast.Name) and n.value.id == p.arg:
+                mutated = True  # inodes[key] = x
             if isinstance(n, (ast.Return, ast.Yield)) and isinstance(n.value, ast.Name) and n.value.id == p.arg:
                 stored = True
         if stored or mutated:
@@ -250,4 +252,285 @@ def unused_result(fn_node):
                 if len(stores.get(nm.id, [])) != 1:
                     continue
                 out.append((st, f"result-never-read:{nm.id}", f"`{nm.id}` receives `{A.unparse(st.value)[:60]}` and is never read: whatever is tested afterwards is an older value under another name"))
+    return out
+
+
+_SINGLE_PASS_CALLS = {"map", "filter", "zip", "chain", "iter", "reversed", "enumerate", "islice", "starmap", "zip_longest"}
+
+
+def stored_iterator(fn_node):
+    """``self.x = (… for …)`` / ``self.x = map(...)``: a single-pass iterator kept as object state is empty for every use
+    after the first (a protection list that protects only during the first trigger run)."""
+    out = []
+    for st in A.body_walk(fn_node):
+        if isinstance(st, ast.Assign) and any(isinstance(t, ast.Attribute) and isinstance(t.value, ast.Name) and t.value.id in ("self", "cls") for t in st.targets):
+            v = st.value
+            single = isinstance(v, ast.GeneratorExp) or (isinstance(v, ast.Call) and isinstance(v.func, ast.Name) and v.func.id in _SINGLE_PASS_CALLS - {"iter"})
+            if single:
+                tgt = next(A.unparse(t) for t in st.targets if isinstance(t, ast.Attribute))
+                out.append((st, f"stored-iterator:{tgt}", f"`{tgt}` is assigned a single-pass iterator (`{A.unparse(v)[:60]}`): whatever consumes it first leaves it empty for every later use of the object"))
+    return out
+
+
+def seq_equal_by_zip(fn_node):
+    """``all(map(eq, a, b))`` / ``all(x == y for x, y in zip(a, b))`` used as "a equals b": zip / map stop at the shorter
+    input, so a proper prefix (or an empty sequence) compares equal."""
+    out = []
+    for c in ast.walk(fn_node):
+        if not (isinstance(c, ast.Call) and isinstance(c.func, ast.Name) and c.func.id == "all" and len(c.args) == 1):
+            continue
+        a = c.args[0]
+        hit = None
+        if isinstance(a, ast.Call) and isinstance(a.func, ast.Name) and a.func.id == "map" and len(a.args) == 3 and A.unparse(a.args[0]).endswith(("eq", "__eq__")):
+            hit = a
+        elif isinstance(a, ast.GeneratorExp) and len(a.generators) == 1 and isinstance(a.generators[0].iter, ast.Call) and isinstance(a.generators[0].iter.func, ast.Name) \
+                and a.generators[0].iter.func.id == "zip" and not any(k.arg == "strict" for k in a.generators[0].iter.keywords) \
+                and isinstance(a.elt, ast.Compare) and isinstance(a.elt.ops[0], ast.Eq):
+            hit = a
+        if hit is not None:
+            out.append((c, "prefix-equality", f"`{A.unparse(c)[:80]}` compares two sequences element by element up to the SHORTER one: a sequence that is a proper prefix of the other (or empty) counts as equal"))
+    return out
+
+
+import re as _re_mod
+
+_QUANTITY = _re_mod.compile(r"^(mode|mtime|size|uid|gid|perms|expected_size|inode|dev)$")
+
+
+def quantity_truthiness(fn_node):
+    """``if obj.mode:`` / ``size and …`` / ``not mtime``: the truth value of a quantity for which 0 is a legitimate value
+    (mode 0000, epoch mtime, zero-length file, uid 0) decides something; the intended test is ``is not None``.
+    A local counts when it is named like the quantity or was assigned from such an attribute / mapping key; results of
+    regex matches and of os.stat() are not optional quantities and are left alone."""
+    out = []
+
+    def qname(e):
+        if isinstance(e, ast.Attribute):
+            return e.attr if _QUANTITY.match(e.attr) else None
+        if isinstance(e, ast.Subscript) and isinstance(e.slice, ast.Constant) and isinstance(e.slice.value, str):
+            return e.slice.value if _QUANTITY.match(e.slice.value) else None
+        if isinstance(e, ast.Call) and isinstance(e.func, ast.Attribute) and e.func.attr == "get" and e.args and isinstance(e.args[0], ast.Constant) \
+                and isinstance(e.args[0].value, str):
+            return e.args[0].value if _QUANTITY.match(e.args[0].value) else None
+        if isinstance(e, ast.IfExp):
+            return qname(e.body) or qname(e.orelse)
+        return None
+
+    alias, not_quantity = {}, set()
+    for t, v, st in A.assignments(fn_node):
+        if isinstance(t, ast.Name):
+            q = qname(v)
+            if q:
+                alias[t.id] = q
+            elif isinstance(v, ast.Call) and A.unparse(v.func).split(".")[-1] in ("match", "search", "fullmatch", "compile", "stat", "lstat"):
+                not_quantity.add(t.id)
+    for node, test, e in _truth_uses(fn_node):
+        q = None
+        if isinstance(e, ast.Name):
+            if e.id in not_quantity:
+                continue
+            q = alias.get(e.id) or (e.id if _QUANTITY.match(e.id) else None)
+        elif isinstance(e, ast.Attribute) and not (isinstance(e.value, ast.Call)):
+            q = qname(e)
+        if q:
+            out.append((node, f"quantity-truthiness:{q}", f"the truth value of `{A.unparse(e)}` decides in `{A.unparse(test)[:60]}`: 0 is a legitimate {q} "
+                        f"(mode 0000, the epoch, an empty file, root) and is treated like 'not given'"))
+    return out
+
+
+_FS_MUST_SUCCEED = {"os.chown", "os.lchown", "os.chmod", "os.lchmod", "os.utime", "os.rename", "os.replace", "os.link", "os.symlink", "os.fsync", "os.truncate",
+                    "os.mkfifo", "os.mknod", "shutil.move", "shutil.copyfile", "shutil.copy2"}
+_BROAD_OS = {"OSError", "IOError", "EnvironmentError", "Exception", "BaseException", "<bare>", "PermissionError"}
+
+
+def _handler_names(h):
+    if h.type is None:
+        return ["<bare>"]
+    return [A.unparse(e).split(".")[-1] for e in (h.type.elts if isinstance(h.type, ast.Tuple) else [h.type])]
+
+
+def _can_fall_through(stmts):
+    """does some way through the handler body end without raise / return?"""
+    if not stmts:
+        return True
+    last = stmts[-1]
+    if isinstance(last, (ast.Raise, ast.Return, ast.Continue, ast.Break)):
+        return False
+    if isinstance(last, ast.If):
+        return _can_fall_through(last.body) or _can_fall_through(last.orelse)
+    return True
+
+
+def swallowed_fs_failure(fn_node):
+    """``try: os.lchown(...) except OSError: pass`` — the failure of an ownership / mode / rename step is dropped without a
+    condition on the error (no errno test, no re-raise, no return value): what follows treats the step as done."""
+    out = []
+    for t in ast.walk(fn_node):
+        if not isinstance(t, ast.Try):
+            continue
+        calls = [c for s in t.body for c in ast.walk(s) if isinstance(c, ast.Call) and A.unparse(c.func) in _FS_MUST_SUCCEED]
+        if not calls:
+            continue
+        for h in t.handlers:
+            names = _handler_names(h)
+            if not set(names) & _BROAD_OS:
+                continue
+            unconditional = all(isinstance(s, ast.Pass) or (isinstance(s, ast.Expr) and isinstance(s.value, ast.Constant)) for s in h.body)
+            if unconditional:
+                out.append((h, f"fs-failure-swallowed:{A.unparse(calls[0].func)}", f"`except {', '.join(names)}: pass` drops any failure of `{A.unparse(calls[0])[:60]}`: "
+                            f"the steps after it (and the caller) go on as if ownership / mode / placement had been set"))
+    return out
+
+
+def errno_tolerance_around_loop(fn_node):
+    """``try: for x in xs: syscall(x)  except OSError as e: if e.errno not in (...): raise`` — an errno tolerance is meant
+    per operation; around the whole loop the first tolerated failure ends the loop and every later item is skipped."""
+    out = []
+    for t in ast.walk(fn_node):
+        if not isinstance(t, ast.Try):
+            continue
+        loops = [s for s in t.body if isinstance(s, (ast.For, ast.While)) and any(isinstance(n, ast.Call) for b in s.body for n in ast.walk(b))]
+        if not loops or len(t.body) != 1:
+            continue  # with other statements in the try the tolerated error may come from those (opening the source of the loop)
+        for h in t.handlers:
+            if h.name is None or not _can_fall_through(h.body):
+                continue
+            tests_errno = any(isinstance(n, ast.Attribute) and n.attr == "errno" and isinstance(n.value, ast.Name) and n.value.id == h.name for s in h.body for n in ast.walk(s))
+            if tests_errno:
+                out.append((t, "errno-tolerance-around-loop", f"the errno tolerance of `except {', '.join(_handler_names(h))}` encloses the whole "
+                            f"`{A.unparse(loops[0]).splitlines()[0][:60]}` loop: the first tolerated failure ends the loop and the remaining items are never processed"))
+    return out
+
+
+def _has_yield(fn_node):
+    for n in A.body_walk(fn_node):
+        if isinstance(n, (ast.Yield, ast.YieldFrom)):
+            return True
+    return False
+
+
+def discarded_generator_call(prog, fi):
+    """``work(items)`` as a statement where ``work`` is a generator function: the call only builds the generator object,
+    none of the body runs (a function turned into a generator by a late ``yield from`` silently stops doing its work for
+    callers that relied on the call itself)."""
+    out = []
+    for st in A.body_walk(fi.node):
+        if not (isinstance(st, ast.Expr) and isinstance(st.value, ast.Call)):
+            continue
+        c = st.value
+        target = None
+        if isinstance(c.func, ast.Name):
+            r = prog.resolve_name(fi.module, c.func.id)
+            target = r if hasattr(r, "node") and isinstance(getattr(r, "node", None), (ast.FunctionDef, ast.AsyncFunctionDef)) else None
+        elif isinstance(c.func, ast.Attribute) and isinstance(c.func.value, ast.Name) and fi.cls is not None and fi.params() and c.func.value.id == fi.params()[0]:
+            target = prog.lookup_attr(fi.cls, c.func.attr)[1]
+            if not (hasattr(target, "node") and isinstance(getattr(target, "node", None), ast.FunctionDef)):
+                target = None
+        if target is not None and _has_yield(target.node) and not any("contextmanager" in ast.unparse(d) or "coroutine" in ast.unparse(d) for d in target.node.decorator_list):
+            out.append((st, f"generator-call-discarded:{target.node.name}", f"`{A.unparse(c)[:60]}` is a bare statement, but `{target.node.name}` is a generator function: "
+                        f"calling it runs none of its body until the result is iterated, which nobody does here"))
+    return out
+
+
+def copy_drops_field(prog, cls_info):
+    """a method of a dataclass builds a new instance of its own class from its own fields (``Cls(self.a, self.b, x)``) and
+    leaves out a field that has a default: the copy silently resets that field (``dataclasses.replace`` keeps all)."""
+    out = []
+    node = cls_info.node
+    if not any("dataclass" in ast.unparse(d) for d in node.decorator_list):
+        return out
+    fields = []
+    for st in node.body:
+        if isinstance(st, ast.AnnAssign) and isinstance(st.target, ast.Name) and "ClassVar" not in ast.unparse(st.annotation):
+            fields.append((st.target.id, st.value is not None))
+    names = [f for f, _ in fields]
+    for mname, m in cls_info.methods.items():
+        ps = m.params()
+        if not ps or mname in ("__init__", "__post_init__", "__new__"):
+            continue
+        me = ps[0]
+        for c in A.calls(m.node):
+            fn = ast.unparse(c.func)
+            if fn not in (cls_info.name, f"type({me})", f"{me}.__class__", "cls"):
+                continue
+            if any(isinstance(a, ast.Starred) for a in c.args) or any(k.arg is None for k in c.keywords):
+                continue
+            bound = dict(zip(names, c.args))
+            bound.update({k.arg: k.value for k in c.keywords})
+            carried = [f for f, v in bound.items() if A.self_attr(v, me) == f]  # passed through unchanged
+            if len(carried) < 2 or len(bound) - len(carried) > 1:
+                continue  # not "this instance with one field replaced"
+            for f, has_default in fields:
+                if has_default and f not in bound:
+                    out.append((c, f"copy-drops-field:{f}", f"{cls_info.name}.{mname} rebuilds the instance as `{A.unparse(c)[:70]}` from its own fields but does not pass `{f}`: "
+                                f"the copy gets the default of `{f}` whatever this instance holds"))
+    return out
+
+
+def _truth_uses(fn_node):
+    """expressions whose truth value decides something: operands of if / while / conditional expression / comprehension
+    filters, through ``not`` / ``and`` / ``or``"""
+    for node in ast.walk(fn_node):
+        tests = []
+        if isinstance(node, (ast.If, ast.IfExp, ast.While)):
+            tests = [node.test]
+        elif isinstance(node, ast.comprehension):
+            tests = node.ifs
+        elif isinstance(node, ast.Assert):
+            tests = [node.test]
+        for t in tests:
+            st = [t]
+            while st:
+                e = st.pop()
+                if isinstance(e, ast.BoolOp):
+                    st.extend(e.values)
+                elif isinstance(e, ast.UnaryOp) and isinstance(e.op, ast.Not):
+                    st.append(e.operand)
+                else:
+                    yield node, t, e
+
+
+def optional_falsy_truthiness(prog, cls_info):
+    """a field declared ``T | None`` where an instance of T can itself be false (T defines ``__bool__`` / ``__len__``, or is
+    int / float) is tested by truth value: "present but empty / zero" is then handled like "not given"."""
+    out = []
+    falsy = {}
+    for st in cls_info.node.body:
+        if not (isinstance(st, ast.AnnAssign) and isinstance(st.target, ast.Name)):
+            continue
+        ann = st.annotation
+        parts = []
+        if isinstance(ann, ast.BinOp) and isinstance(ann.op, ast.BitOr):
+            stack = [ann]
+            while stack:
+                x = stack.pop()
+                if isinstance(x, ast.BinOp) and isinstance(x.op, ast.BitOr):
+                    stack += [x.left, x.right]
+                else:
+                    parts.append(x)
+        elif isinstance(ann, ast.Subscript) and A.unparse(ann.value).endswith("Optional"):
+            parts = [ann.slice, ast.Constant(None)]
+        if not any(isinstance(p, ast.Constant) and p.value is None for p in parts):
+            continue
+        for p in parts:
+            if isinstance(p, ast.Constant):
+                continue
+            tn = A.unparse(p.value if isinstance(p, ast.Subscript) else p)
+            if tn in ("int", "float"):
+                falsy[st.target.id] = f"{tn} (0 is a value)"
+            else:
+                r = prog.resolve_name(cls_info.module, tn.split(".")[0]) if "." not in tn else None
+                if hasattr(r, "methods") and ("__bool__" in r.methods or "__len__" in r.methods):
+                    falsy[st.target.id] = f"{tn} (defines {'__bool__' if '__bool__' in r.methods else '__len__'})"
+    if not falsy:
+        return out
+    for mname, m in cls_info.methods.items():
+        ps = m.params()
+        if not ps:
+            continue
+        for node, test, e in _truth_uses(m.node):
+            a = A.self_attr(e, ps[0])
+            if a in falsy:
+                out.append((node, f"optional-falsy-truth:{a}", f"{cls_info.name}.{mname} tests the truth value of `{A.unparse(e)}`, declared `… | None` with {falsy[a]}: "
+                            f"a value that is present but false is treated as absent (compare with `is not None`)"))
     return out
